@@ -118,7 +118,8 @@ def run_shard(spec, M):
                         check_kinds(kinds, M)
     elif fam == "docs":
         for i in range(spec["start"], spec["start"] + spec["n"]):
-            R = doccheck.make_doc(spec["seed"], "C18", i)
+            kw = {"size": "huge", "special": 0.3, "deep": True} if i % 80 == 0 else ({"special": 0.3} if i % 3 == 0 else {})
+            R = doccheck.make_doc(spec["seed"], "C18", i, **kw)
             M.case(h64(R.text))
             o = observe.parse_observed(R.text)
             case = {"kind": "text", "text": R.text}
